@@ -380,6 +380,7 @@ impl Lexer {
 pub(crate) fn tokenize_file(ctx: &mut StaticsContext, file_id: FileId) -> Vec<Token> {
     let file_data = ctx.file_db.get(file_id).unwrap();
     let mut lexer = Lexer::new(&file_data.source);
+    let first_lexer_error = ctx.errors.len();
 
     // look for a shebang at the beginning of file
     if !lexer.done()
@@ -578,7 +579,28 @@ pub(crate) fn tokenize_file(ctx: &mut StaticsContext, file_id: FileId) -> Vec<To
 
     lexer.emit(TokenKind::Eof);
 
-    lexer.into_tokens()
+    // The lexer counts positions in chars, but everything downstream (line lookup,
+    // diagnostics, editor queries) treats spans as byte offsets into the source:
+    // convert once here, clamping to the end of the file.
+    let mut byte_of_char = Vec::with_capacity(lexer.chars.len() + 1);
+    let mut nbytes = 0;
+    for c in &lexer.chars {
+        byte_of_char.push(nbytes);
+        nbytes += c.len_utf8();
+    }
+    byte_of_char.push(nbytes);
+    let to_byte = |i: usize| byte_of_char.get(i).copied().unwrap_or(nbytes);
+    for error in ctx.errors[first_lexer_error..].iter_mut() {
+        if let Error::UnrecognizedToken(_, index) = error {
+            *index = to_byte(*index);
+        }
+    }
+    let mut tokens = lexer.into_tokens();
+    for token in tokens.iter_mut() {
+        token.span.lo = to_byte(token.span.lo);
+        token.span.hi = to_byte(token.span.hi);
+    }
+    tokens
 }
 
 // All position arguments to these helpers are offsets relative to `lexer.index`.
